@@ -185,6 +185,15 @@ pub(crate) trait ReceiverLink: Link + LinkExt {
         include_properties: bool,
     ) -> Result<(), Self::FlowError>;
 
+    /// The flow that `send_flow` sends: the flow state is set, nothing is written
+    fn flow(
+        &self,
+        link_credit: Option<u32>,
+        drain: Option<bool>,
+        echo: bool,
+        include_properties: bool,
+    ) -> Result<LinkFrame, Self::FlowError>;
+
     /// Handles delivery state that is carried in a Transfer
     fn on_transfer_state(
         &mut self,
@@ -212,6 +221,16 @@ pub(crate) trait ReceiverLink: Link + LinkExt {
     where
         for<'de> T: FromBody<'de> + Send,
         P: IntoReader<'a> + AsByteIterator + Send + 'a;
+
+    /// The disposition that `dispose` sends, if it sends one: the unsettled map is updated,
+    /// nothing is written
+    fn disposition(
+        &self,
+        delivery_info: DeliveryInfo,
+        settled: Option<bool>,
+        state: DeliveryState,
+        batchable: bool,
+    ) -> Option<LinkFrame>;
 
     async fn dispose(
         &self,
